@@ -8,12 +8,14 @@ environment.
 
 R1 the normalised traces are equal: operation invocations, strategy contexts,
    handler / before_sleep / sleeper calls and delays, metric and log streams,
-   budget interactions, abort polls, virtual timestamps; breaker interactions
-   are compared among the entry points that have a breaker
+   budget interactions, virtual timestamps; breaker interactions are compared
+   among the entry points that have a breaker.  Abort is modelled as state (the
+   flag rises during the n-th operation / strategy evaluation / sleep), and the
+   number of abort polls and classifier calls is not compared
 R2 call vs execute deliver the same fact (value <-> ok/value; raised exception
    object <-> last_exception; RetryExhaustedError fields <-> outcome fields;
    AbortRetryError <-> ABORTED; CircuitOpenError <-> rejected outcome)
-Not compared (documented differences): attempt hooks, classifier call counts,
+Not compared (documented differences): attempt hooks, classifier and abort-poll call counts,
 timeline (execute only); the decorator is given an explicit `operation` and
 its would-be call-level sleep stubs are installed at policy level.
 """
@@ -30,7 +32,7 @@ from . import common
 
 ID = "C12"
 LEVEL = "exploration"
-KNOBS = {"p_decisions": 0.45, "p_handler": 0.5, "p_abort": 0.25, "p_budget": 0.35, "p_generous": 0.45, "p_ok": 0.18,
+KNOBS = {"p_decisions": 0.45, "p_handler": 0.5, "p_abort": 0.45, "p_abort_if": 0.7, "p_budget": 0.35, "p_generous": 0.45, "p_ok": 0.18,
          "p_hostile": 0.12, "p_overshoot": 0.3, "p_att_hooks": 0.5, "p_single_call": 0.8}
 RULE = ("each seeded scenario is run through all 28 entry-point variants and the normalised traces are compared pairwise "
         "against the sync Retry.call run; distinct by trace shape of the reference run; non-trivial = >=1 failed attempt")
@@ -50,6 +52,14 @@ def gen(seed, tier="quick"):
     r = random.Random(seed ^ 0xC12)
     scn["entry"], scn["how"], scn["mode"] = "Retry", "call", "sync"
     scn["hooks"]["operation"] = scn["hooks"]["operation"] or "op"
+    # abort as *state*: the flag rises at a trace-defined moment (during the n-th operation, strategy evaluation or
+    # sleep, or before the call), so the comparison does not depend on how often each entry point polls
+    for c in scn["calls"]:
+        if c.get("abort_at") is not None:
+            c["abort_at"] = None
+            c["abort_when"] = r.choice([{"ev": "CALL_BEGIN", "n": 1}, {"ev": "OP_END", "n": r.randint(1, 3)}, {"ev": "STRATEGY", "n": r.randint(1, 2)},
+                                        {"ev": "STRATEGY", "n": 1}, {"ev": "BUDGET", "n": 1},
+                                        {"ev": "SLEEP_END", "n": r.randint(1, 2)}, {"ev": "OP_BEGIN", "n": r.randint(1, 3)}])
     scn["hooks"]["timeline"] = r.choice([None, True])
     scn["place"]["bs_async"] = r.random() < 0.5
     scn["place"]["sleeper_kind"] = r.choice(["async", "sync"])
@@ -97,7 +107,7 @@ def result_fact(cf):
     return ("exc", o["last_exception"])
 
 
-DROP = {"SUSPEND", "YIELD", "ATT_START", "ATT_END", "CALL_BEGIN", "CALL_END", "ADVANCE"}
+DROP = {"SUSPEND", "YIELD", "ATT_START", "ATT_END", "CALL_BEGIN", "CALL_END", "ADVANCE", "POLL", "CLASSIFY", "RCLASSIFY"}
 
 
 def normalise(trace, with_breaker):
@@ -131,6 +141,7 @@ def normalise(trace, with_breaker):
 def execute(scn):
     ref_env = None
     results = {}
+    calls_by_key = {}
     runs = 0
     viol = []
     faults = {}
@@ -144,6 +155,7 @@ def execute(scn):
         runs += 1
         sim_us += info["sim_us"]
         calls = split_calls(env.trace)
+        calls_by_key[(mode, entry, how)] = calls
         results[(mode, entry, how)] = (normalise(env.trace, False),
                                        normalise(env.trace, True) if entry in BREAKER_ENTRIES else None,
                                        {cid: result_fact(cf) for cid, cf in calls.items()})
@@ -169,6 +181,11 @@ def execute(scn):
             k = next((i for i, (x, y) in enumerate(zip(a, b)) if x != y), min(len(a), len(b)))
             viol.append(V("R1", f"breaker interactions of {key[1]}.{key[2]} ({key[0]}) differ from sync Policy.call",
                           {"entry": name, "index": k, "reference": a[k] if k < len(a) else None, "got": b[k] if k < len(b) else None}))
+        if key[2] == "execute":
+            for cid, cf in calls_by_key[key].items():
+                if cf.end is not None and cf.end["how"] == "raise":
+                    viol.append(V("R2", f"{key[1]}.execute ({key[0]}) raised instead of returning a RetryOutcome",
+                                  {"entry": name, "exc": cf.end["exc"]}))
         if facts != group_ref[2]:
             viol.append(V("R2", f"{key[1]}.{key[2]} ({key[0]}) delivers a different final result",
                           {"entry": name, "reference": group_ref[2], "got": facts}))
